@@ -214,26 +214,29 @@ def chunks(items, n):
     return [items[i:i + size] for i in range(0, len(items), size)]
 
 
-def run_cases(ctx, exe, mode, cases, tag, trace_spec, replayed, parts=1):
-    """Execute the cases on the real code (driver mode parse|srv), validate the traces with TLC; parts > 1: in parallel."""
-    tla, cfg = trace_spec
+def run_cases(ctx, exe, tasks):
+    """tasks: (mode, cases, tag, (tla, cfg), replayed, parts). Execute the cases on the real code (driver mode parse|srv) and have
+    TLC validate the recorded traces; all chunks of all tasks share one thread pool."""
+    units = []
+    for mode, cases, tag, spec, replayed, parts in tasks:
+        for idx, part in enumerate(chunks(cases, parts)):
+            units.append((mode, part, "%s_%d" % (tag, idx), spec, replayed))
 
-    def one(idx_part):
-        idx, part = idx_part
-        sp, tr = ctx.tmp("%s_%d.jsonl" % (tag, idx)), ctx.tmp("%s_%d.ndjson" % (tag, idx))
+    def one(u):
+        mode, part, name, (tla, cfg), replayed = u
+        sp, tr = ctx.tmp(name + ".jsonl"), ctx.tmp(name + ".ndjson")
         write_jsonl(sp, part)
-        return vlib.record_and_validate(ctx, exe, [mode, sp, tr], tr, D, tla, cfg, "%s[%d]: %d executions on the real code" % (tag, idx, len(part)),
-                                        tlc_env={"JAVA_TOOL_OPTIONS": "-Xss64m"})
-    ps = list(enumerate(chunks(cases, parts)))
-    with cf.ThreadPoolExecutor(max_workers=max(1, min(len(ps), vlib.NCPU))) as ex:
-        res = list(ex.map(one, ps))
-    ok = all(r[0] for r in res)
-    n = sum(r[1] for r in res if r[0])
-    if replayed:
-        ctx.traces_ok -= n
-        ctx.replays_ok += n
+        ok, n = vlib.record_and_validate(ctx, exe, [mode, sp, tr], tr, D, tla, cfg, "%s: %d executions on the real code" % (name, len(part)),
+                                         tlc_env={"JAVA_TOOL_OPTIONS": "-Xss64m"})
+        return ok, n, replayed
+    with cf.ThreadPoolExecutor(max_workers=max(1, min(len(units), vlib.NCPU))) as ex:
+        res = list(ex.map(one, units))
+    for ok, n, replayed in res:
+        if ok and replayed:
+            ctx.traces_ok -= n
+            ctx.replays_ok += n
     cleanup_ttrace()
-    return ok
+    return all(r[0] for r in res)
 
 
 def replay(ctx, exe):
@@ -242,12 +245,12 @@ def replay(ctx, exe):
     if first is None:
         raise vlib.Infra("replay file holds no execution of the driver (model-level violations are reproduced by re-running the check)")
     if first["e"] == "Begin":
-        run_cases(ctx, exe, "srv", [first["script"]], "replay", ("Trace_HttpPipeline.tla", "Trace_HttpPipeline.cfg"), True)
+        run_cases(ctx, exe, [("srv", [first["script"]], "replay", ("Trace_HttpPipeline.tla", "Trace_HttpPipeline.cfg"), True, 1)])
     else:
         case = {"hex": bytes(first["bytes"]).hex(), "cuts": first["cuts"]}
         if first["mode"] == "srv":
             case["mode"] = "stream"
-        run_cases(ctx, exe, "srv" if first["mode"] == "srv" else "parse", [case], "replay", ("Trace_HttpParse.tla", "Trace_HttpParse.cfg"), True)
+        run_cases(ctx, exe, [("srv" if first["mode"] == "srv" else "parse", [case], "replay", ("Trace_HttpParse.tla", "Trace_HttpParse.cfg"), True, 1)])
 
 
 def run(ctx):
@@ -270,54 +273,58 @@ def run(ctx):
     rnd = random.Random(ctx.seed * 7919 + 12)
     par = max(1, min(8, vlib.NCPU))
 
-    # 1. the designs ---------------------------------------------------------------------------------------------------
+    # 1. the designs; 2./4. the generators ------------------------------------------------------------------------------------------
     def mc(args):
         tla, cfg, kw = args
+        if tla.startswith("Gen_"):
+            return ctx.tlc_gen(D, tla, cfg, workers=max(2, vlib.NCPU // 2), **kw)
         return ctx.tlc_mc(D, tla, cfg, workers=max(2, vlib.NCPU // 2), **kw)
-    jobs = [("MC_HttpParse.tla", "MC_parse_reach_deliver.cfg", dict(expect="NeverDeliversAndEnds", coverage=False)),   # vacuity guards: these
-            ("MC_HttpParse.tla", "MC_parse_reach_giveup.cfg", dict(expect="NeverGivesUp", coverage=False)),           # behaviours must exist
-            ("MC_HttpParse.tla", "MC_parse_wf_quick.cfg" if q else "MC_parse_wf_thorough.cfg", dict(coverage=False, timeout=1800)),
+    jobs = [("MC_HttpParse.tla", "MC_parse_wf_quick.cfg" if q else "MC_parse_wf_thorough.cfg", dict(coverage=False, timeout=1800)),
             ("MC_HttpParse.tla", "MC_parse_hostile_quick.cfg" if q else "MC_parse_hostile_thorough.cfg", dict(coverage=False, timeout=1800)),
+            ("MC_HttpParse.tla", "MC_parse_reach_deliver.cfg", dict(expect="NeverDeliversAndEnds", coverage=False)),   # vacuity guards: these
+            ("MC_HttpParse.tla", "MC_parse_reach_giveup.cfg", dict(expect="NeverGivesUp", coverage=False)),           # behaviours must exist
             ("MC_HttpParse.tla", "MC_parse_asfound_method.cfg", dict(expect="SegmentationIndependent", coverage=False)),
             ("MC_HttpParse.tla", "MC_parse_asfound_length.cfg", dict(expect="Total", coverage=False)),
             ("MC_HttpPipeline.tla", "MC_pipe_quick.cfg" if q else "MC_pipe_thorough.cfg", dict(required_actions=PIPE_ACTIONS, timeout=1500)),
             ("MC_HttpPipeline.tla", "MC_pipe_asfound_afterclose.cfg", dict(expect="NothingAfterClose", coverage=False)),
-            ("MC_HttpPipeline.tla", "MC_pipe_asfound_shutrd.cfg", dict(expect="EachResponseOnce", coverage=False))]
-    with cf.ThreadPoolExecutor(max_workers=2 if vlib.NCPU < 8 else 3) as ex:
-        list(ex.map(mc, jobs))
+            ("MC_HttpPipeline.tla", "MC_pipe_asfound_shutrd.cfg", dict(expect="EachResponseOnce", coverage=False)),
+            ("Gen_HttpParse.tla", "Gen_parse_quick.cfg" if q else "Gen_parse_thorough.cfg", dict(timeout=900)),
+            ("Gen_HttpPipeline.tla", "Gen_pipe_quick.cfg" if q else "Gen_pipe_thorough.cfg", dict(timeout=1500)),
+            ("Gen_HttpPipeline.tla", "Gen_pipe_peer.cfg", dict(timeout=900))]
+    if not q:
+        jobs.append(("Gen_HttpPipeline.tla", "Gen_pipe_sim.cfg", dict(simulate=(1000000, 40), timeout=60, limit=30000)))
+    with cf.ThreadPoolExecutor(max_workers=2 if vlib.NCPU < 8 else 4) as ex:
+        out = list(ex.map(mc, jobs))
     cleanup_ttrace()
     ctx.exhaustive = True
+    pairs = sorted(out[9], key=lambda b: json.dumps(b, sort_keys=True))
+    hists = sorted([h for o in out[10:] for h in o], key=lambda h: json.dumps(h, sort_keys=True))
+    tasks = []
 
     # 2. parsing, spec -> code: every (stream, cuts) pair of the bounded scope -----------------------------------------------
-    pairs = ctx.tlc_gen(D, "Gen_HttpParse.tla", "Gen_parse_quick.cfg" if q else "Gen_parse_thorough.cfg", timeout=900)
     cases = [{"hex": bytes(b["bytes"]).hex(), "cuts": b["cuts"]} for b in pairs]
-    ctx.notes.append("Gen_HttpParse: %d (stream, cuts) pairs executed on RequestParser; every %d-th also through a real Server" %
-                     (len(cases), 7))
+    ctx.notes.append("Gen_HttpParse: %d (stream, cuts) pairs executed on RequestParser; every 7th also through a real Server" % len(cases))
     ctx.sample({"kind": "model (stream, cuts) pair executed on the real RequestParser", "stream": bytes(pairs[0]["bytes"]).decode("latin-1"),
                 "cuts": pairs[0]["cuts"]})
-    run_cases(ctx, exe, "parse", cases, "gen_parse", PT, True, parts=par)
-    srv_cases = [dict(c, mode="stream") for c in cases[::7] if len(c["cuts"]) <= 12]
-    run_cases(ctx, exe, "srv", srv_cases, "gen_parse_srv", PT, True, parts=par)
+    tasks.append(("parse", cases, "gen_parse", PT, True, par))
+    tasks.append(("srv", [dict(c, mode="stream") for c in cases[::7] if len(c["cuts"]) <= 12], "gen_parse_srv", PT, True, par))
 
     # 3. parsing, code -> spec: random well-formed pipelines and hostile streams ------------------------------------------------
     nwf, nbig, nhost = (700, 6, 900) if q else (8000, 60, 12000)
     wf = [gen_wf_case(rnd) for _ in range(nwf)] + [gen_wf_case(rnd, big=True) for _ in range(nbig)]
     host = [gen_hostile_case(rnd) for _ in range(nhost)]
+    rnd.shuffle(wf)
     ctx.sample({"kind": "random well-formed pipeline (first 300 bytes) fed to the real parser", "stream": bytes.fromhex(wf[0]["hex"])[:300].decode("latin-1"),
                 "cuts": wf[0]["cuts"][:20]})
     ctx.sample({"kind": "hostile stream fed to the real parser", "stream": bytes.fromhex(host[3]["hex"])[:200].decode("latin-1"), "cuts": host[3]["cuts"][:20]})
-    run_cases(ctx, exe, "parse", wf, "rnd_wf", PT, False, parts=par)
-    run_cases(ctx, exe, "parse", host, "rnd_hostile", PT, False, parts=par)
+    tasks.append(("parse", wf, "rnd_wf", PT, False, par))
+    tasks.append(("parse", host, "rnd_hostile", PT, False, par))
     srv_wf = [dict(gen_wf_case(rnd, close_ok=(i % 3 == 0)), mode="stream") for i in range(nwf // 4)]
     srv_wf = [c for c in srv_wf if len(c["cuts"]) <= 40]
     srv_host = [dict(c, mode="stream") for c in host[::4] if len(c["cuts"]) <= 40]
-    run_cases(ctx, exe, "srv", srv_wf + srv_host, "rnd_srv", PT, False, parts=par)
+    tasks.append(("srv", srv_wf + srv_host, "rnd_srv", PT, False, par))
 
     # 4. pipelining, spec -> code: every behaviour of the bounded model replayed on a real Server --------------------------------
-    hists = ctx.tlc_gen(D, "Gen_HttpPipeline.tla", "Gen_pipe_quick.cfg" if q else "Gen_pipe_thorough.cfg", timeout=1500)
-    hists += ctx.tlc_gen(D, "Gen_HttpPipeline.tla", "Gen_pipe_peer.cfg", timeout=900)
-    if not q:
-        hists += ctx.tlc_gen(D, "Gen_HttpPipeline.tla", "Gen_pipe_sim.cfg", simulate=(1000000, 40), timeout=60, limit=30000)
     seen, scripts = set(), []
     for i, h in enumerate(hists):
         sc = hist_to_script(h, c2=(i % 2 == 1))
@@ -327,12 +334,13 @@ def run(ctx):
             scripts.append(sc)
     ctx.notes.append("Gen_HttpPipeline: %d model behaviours -> %d distinct environment scripts replayed on a real Server" % (len(hists), len(scripts)))
     ctx.sample({"kind": "model pipeline behaviour replayed on a real http::server::Server", "script": scripts[len(scripts) // 2]})
-    run_cases(ctx, exe, "srv", scripts, "gen_pipe", QT, True, parts=par)
+    tasks.append(("srv", scripts, "gen_pipe", QT, True, par))
 
     # 5. pipelining, code -> spec: long random pipelines ---------------------------------------------------------------------------
     rs = [gen_pipe_script(rnd) for _ in range(400 if q else 6000)]
     ctx.sample({"kind": "random pipeline script", "script": rs[0]})
-    run_cases(ctx, exe, "srv", rs, "rnd_pipe", QT, False, parts=par)
+    tasks.append(("srv", rs, "rnd_pipe", QT, False, par))
+    run_cases(ctx, exe, tasks)
 
     ctx.assumptions = [
         "well-formed = the grammar of spec/Http/HttpRef.tla (methods/versions known to the code, target '/'+unreserved with an optional "
